@@ -343,7 +343,8 @@ class Optimality(DPCheck):
                         fixed = (rd.get("alleles") or {}).get(str(c))
                         a = fixed if fixed is not None else inp["a_%d_%d" % (r, c)]
                         if ((assign >> hp[idx[rd["sample"]]][B[r]]) & 1) != a:
-                            cst += inp["w_%d_%d" % (r, c)]
+                            fw = (rd.get("weights") or {}).get(str(c))
+                            cst += fw if fw is not None else inp["w_%d_%d" % (r, c)]
                 costs.append((cst, al))
             mn = min(x for x, _ in costs)
             for k in range(len(shape["individuals"])):
